@@ -8,8 +8,12 @@ CHECKS = [
              "the model is compared with the library on generated honest transcripts (commitments, randomness, proofs, decisions, RNG draws).",
      "note": COMMON_NOTE + " Modelled for C01: KZG10, MarlinKZG10 (trim/commit/open/check/batch_open/batch_check with degree bounds and hiding), SonicKZG10 "
              "(trim/commit/open/check with degree bounds and hiding; end-to-end completeness theorem), the multilinear PST of multilinear_pc "
-             "(setup/trim/commit/open/check; completeness under every trimmed key), PST13's division and streaming KZG (see C15, C14). IPA, Hyrax and "
-             "the code-based schemes are judged by the implementation-level completeness oracle only."},
+             "(setup/trim/commit/open/check; completeness under every trimmed key), PST13's division and streaming KZG (see C15, C14), Hyrax "
+             "(commit/open/check of one polynomial; completeness of the dot-product argument for every matrix, point, tape and challenge) and "
+             "the inner-product argument (trim/commit/open/succinct_check/check of any list of polynomials at one point, degree bounds and hiding "
+             "included; end-to-end completeness for all sponge challenges and all nonzero round challenges). Hyrax and IPA group elements are "
+             "modelled as coefficient vectors over the published key (generic-group view). IPA/Hyrax batch and combination paths and the "
+             "code-based schemes are judged by the implementation-level completeness oracle only."},
     {"property_id": "C16",
      "text": "Coq theorems (unbounded): every LinearCombination operator and every operator sequence acts on values as the corresponding arithmetic; "
              "evaluate_query_set maps exactly the queried (label, point) keys to the polynomial's value; SuccinctCheckPolynomial::evaluate equals Horner "
@@ -18,8 +22,9 @@ CHECKS = [
      "note": COMMON_NOTE + " Modelled: data_structures.rs LinearCombination operators (terms as ordered list), lib.rs evaluate_query_set (BTreeMap as ordered "
              "association list), ipa_pc SuccinctCheckPolynomial::{evaluate,compute_coeffs}. Not modelled: string labels (numeric labels printed fixed-width)."},
 ]
-GENERIC = (" Sonic's single-point flow (keys, commitments, proofs, decisions and mutated verifier runs) is compared with its extracted model as Marlin's is. "
-           "The other schemes behind the PolynomialCommitment trait (IPA, PST13 commit/open, Hyrax, univariate/multilinear Ligero, Brakedown) are "
+GENERIC = (" Sonic's single-point flow (keys, commitments, proofs, decisions and mutated verifier runs) is compared with its extracted model as Marlin's is; "
+           "so are Hyrax's and IPA's single-point flows (free-module view over the published key; sponge and hash challenges from recorded tapes). "
+           "The other schemes and paths behind the PolynomialCommitment trait (PST13 commit/open, univariate/multilinear Ligero, Brakedown, IPA/Hyrax batches) are "
            "exercised by the same generated histories and judged by implementation-level oracles (supporting search, not proof).")
 CHECKS += [
     {"property_id": "C02",
